@@ -6,6 +6,7 @@ Template bytecode as documented in library/core/src/fmt/mod.rs of the pinned nig
  n == 0x80        literal piece, u16-le length follows
  n >= 0xC0        placeholder; bit0 flags(u32) bit1 width(u16) bit2 precision(u16) bit3 arg_index(u16)
 """
+import re
 from .core import op_local
 
 
@@ -206,3 +207,48 @@ def format_sites(body):
 def format_literals(body):
     """Concatenated literal text of every format site in the body (for attribute-name checks)."""
     return ["".join(x[1] for x in parts if x[0] == "lit") for _, parts in format_sites(body)]
+
+
+def format_parts_flat(body, block, depth=0):
+    """format_parts with nested pieces spliced in: an argument printed with a plain `{}` that is itself the String built by another
+    `format!` of this body (`let date = format!(..); format!("{} {} GMT", date, time)`) is replaced by that site's parts."""
+    parts = format_parts(body, block)
+    if parts is None or depth > 3:
+        return parts
+    specs = format_specs(body, block) or []
+    out = []
+    ai = 0
+    for p in parts:
+        if p[0] != "arg":
+            out.append(p)
+            continue
+        sp = specs[ai] if ai < len(specs) else None
+        ai += 1
+        inner = None
+        plain = (p[2] or "").endswith("new_display") and (sp is None or (sp.get("flags") is None and sp.get("width") is None and sp.get("precision") is None))
+        if plain and p[1] is not None:
+            l = _deref_chain(body, p[1])
+            d = _single_def(body, l)
+            if d and d[2] == "call" and re.search(r"fmt::format$|fmt::format::format_inner$|must_use$", d[3].get("callee") or ""):
+                a0 = op_local(d[3]["args"][0]) if d[3].get("args") else None
+                if (d[3].get("callee") or "").endswith("must_use") and a0 is not None:
+                    d2 = _single_def(body, a0)
+                    if d2 and d2[2] == "call" and re.search(r"fmt::format$|format_inner$", d2[3].get("callee") or ""):
+                        a0 = op_local(d2[3]["args"][0]) if d2[3].get("args") else None
+                    else:
+                        a0 = None
+                ad = _single_def(body, a0) if a0 is not None else None
+                if ad and ad[2] == "call" and "fmt::Arguments" in (ad[3].get("callee") or ""):
+                    inner = format_parts_flat(body, ad[0], depth + 1)
+        if inner is not None:
+            out.extend(inner)
+        else:
+            out.append(p)
+    # merge adjacent literals
+    merged = []
+    for p in out:
+        if p[0] == "lit" and merged and merged[-1][0] == "lit":
+            merged[-1] = ("lit", (merged[-1][1] or "") + (p[1] or ""))
+        else:
+            merged.append(p)
+    return merged
